@@ -129,6 +129,7 @@ func TestC27(t *testing.T) {
 		wo.FeeCoin = true
 		wo.RandomPrices = sim.U(t, "randomPrices", 3) != 0
 		h := newHistory(t, wo, sim.GeneralProfile(), sim.BlockOpts{MaxTxs: 10})
+		defer queryLoad(t, h, 0)()
 		type pre struct {
 			ok                      bool
 			d                       *tx.Transaction
